@@ -146,8 +146,9 @@ LOCK_TYPE = type(threading.Lock())
 class GuardProxy:
     """stands in for a guard of the instance: the request parks before taking it (action mode) and does not park while it
     holds it (a parked holder would block every other request at the guard for real)."""
-    def __init__(self, real):
+    def __init__(self, real, role="guard"):
         self.real = real
+        self.role = role                 # "guard": protects the flag accesses; "flag": the lock object IS the flag
 
     def __enter__(self):
         tid = CTL.tid()
@@ -167,12 +168,24 @@ class GuardProxy:
         return False
 
     def acquire(self, *a, **kw):
+        if self.role == "flag":                               # acquire(blocking=False) on the flag object: one test-and-set
+            e = CTL.visible("TAS")
+            r = self.real.acquire(*a, **kw)
+            if e is not None:
+                e[2] = bool(r)
+            elif r and CTL.tid() is not None and CTL.atomic():
+                CTL.log.append([CTL.tid(), "SL", None, True])
+            return r
         return self.real.acquire(*a, **kw)
 
     def release(self):
+        if self.role == "flag":
+            CTL.visible("CL", folded=True)
         return self.real.release()
 
     def locked(self):
+        if self.role == "flag":
+            CTL.visible("RL")
         return self.real.locked()
 
 
@@ -254,29 +267,53 @@ class World:
                                 json={"scenario_managers": [SM], "scenarios": [SC], "equations": ["stock", "flow"]})
 
     def _find_flag(self):
-        """where does lock() write?  (probed, not assumed: the recorder must sit on the real flag)"""
+        """where does lock() write?  (probed, not assumed: the recorder must sit on the real flag).  Sets flag_kind:
+        "state" (session_state["lock"]), "attr" (a bool attribute of the instance), "lockobj" (a threading.Lock of the
+        instance that lock() acquires: the lock object is the flag)."""
         r = self._begin()
         assert r.status_code == 200, r.data
         inst, cls = self.inst, type(self.inst)
         before = {k: v for k, v in vars(inst).items() if isinstance(v, bool)}
+        locks = {k: v for k, v in vars(inst).items() if isinstance(v, LOCK_TYPE)}
         cls.lock(inst)
         changed = [k for k, v in vars(inst).items() if isinstance(v, bool) and before.get(k) != v]
+        taken = [k for k, v in locks.items() if v.locked()]
         on_state = bool(inst.session_state.get("lock"))
-        self.recorder_blind = bool(cls.is_locked(inst)) and not changed and not on_state   # the flag is somewhere else
+        self.recorder_blind = bool(cls.is_locked(inst)) and not changed and not on_state and not taken
         cls.unlock(inst)
+        for k in taken:                                     # an unlock() that does not release would poison the probes
+            if locks[k].locked():
+                locks[k].release()
+        self.flag_kind = "state"
+        if taken and not on_state:
+            self.flag_kind = "lockobj"
+            return taken[0]
         if changed and not on_state:
+            self.flag_kind = "attr"
             return changed[0]
         return None
 
+    def _flag_lock(self):
+        g = self.inst.__dict__[self.flag_attr]
+        return g.real if isinstance(g, GuardProxy) else g
+
     def flag_raw(self):
         """the stored flag, read without recording (None: there is no place for it right now)"""
+        if self.flag_kind == "lockobj":
+            return self._flag_lock().locked()
         if self.flag_attr is not None:
             return bool(self.inst.__dict__.get("_rec_" + self.flag_attr, False))
         st = self.inst.session_state
         return None if st is None else bool(dict.get(st, "lock", False))
 
     def flag_force(self, v):
-        if self.flag_attr is not None:
+        if self.flag_kind == "lockobj":
+            lk = self._flag_lock()
+            if v and not lk.locked():
+                lk.acquire(False)
+            elif not v and lk.locked():
+                lk.release()
+        elif self.flag_attr is not None:
             self.inst.__dict__["_rec_" + self.flag_attr] = bool(v)
         elif self.inst.session_state is not None:
             dict.__setitem__(self.inst.session_state, "lock", bool(v))
@@ -297,10 +334,10 @@ class World:
         self.guards = []
         for k, v in list(vars(inst).items()):
             if isinstance(v, LOCK_TYPE):
-                g = GuardProxy(v)
+                g = GuardProxy(v, "flag" if (self.flag_kind == "lockobj" and k == self.flag_attr) else "guard")
                 setattr(inst, k, g)
                 self.guards.append(k)
-        if self.flag_attr is not None:                   # the flag is an attribute: record it through a property
+        if self.flag_kind == "attr":                     # the flag is an attribute: record it through a property
             name = self.flag_attr
 
             def fget(obj):
@@ -812,7 +849,7 @@ def _released(tid):
 def _about_to_acquire(p, line):
     if line:
         txt = TRACER.src.get(p, "") if isinstance(p, tuple) else ""
-        return "try_lock(" in txt or ".lock()" in txt
+        return "try_lock(" in txt or ".lock()" in txt or (isinstance(p, tuple) and p[0] == "bptk.try_lock")
     return p in ("TAS", "SL", "G")
 
 
@@ -946,6 +983,32 @@ class TraceDict(dict):
         dict.__setitem__(self, k, v)
 
 
+class StubLock:
+    """the stub's stand-in for a threading.Lock that is used as the flag itself"""
+    def __init__(self, stub, real):
+        self.stub, self.real = stub, real
+
+    def acquire(self, *a, **kw):
+        self.stub.rec("TAS")
+        return self.real.acquire(*a, **kw)
+
+    def release(self):
+        self.stub.rec("CL")
+        return self.real.release()
+
+    def locked(self):
+        self.stub.lock_access("R", None)
+        return self.real.locked()
+
+    def __enter__(self):
+        self.acquire()
+        return self
+
+    def __exit__(self, *exc):
+        self.release()
+        return False
+
+
 class StubInstance:
     """Recording stand-in for the bptk instance of one request.  The code that runs is the real code of class bptk
     (`is_locked/lock/unlock/try_lock/run_step/progress` are taken from the class and bound to the stub), the state is
@@ -955,11 +1018,17 @@ class StubInstance:
         import threading as _th
         self._b = world.bmod.bptk
         self._guards = []
+        self._flag_kind = getattr(world, "flag_kind", "state")
+        self._lockobj = None
         for k, v in vars(world.inst).items():
             if isinstance(v, (LOCK_TYPE, GuardProxy)):
-                g = _th.Lock()
-                setattr(self, k, g)
-                self._guards.append(g)
+                if self._flag_kind == "lockobj" and k == world.flag_attr:
+                    self._lockobj = _th.Lock()
+                    setattr(self, k, StubLock(self, self._lockobj))     # the lock object is the flag
+                else:
+                    g = _th.Lock()
+                    setattr(self, k, g)
+                    self._guards.append(g)
         self.scenario_manager_factory = world.inst.scenario_manager_factory
         self.trace = []                       # [label, (code name, line)]
         self.folding, self.folded = False, []
@@ -976,12 +1045,19 @@ class StubInstance:
         self.flag_set_raw(bool(locked))
 
     def flag_get_raw(self):
+        if self._lockobj is not None:
+            return self._lockobj.locked()
         if self._flag_attr is not None:
             return self._flagval
         return bool(dict.get(self.session_state, "lock", False))
 
     def flag_set_raw(self, v):
-        if self._flag_attr is not None:
+        if self._lockobj is not None:
+            if v and not self._lockobj.locked():
+                self._lockobj.acquire(False)
+            elif not v and self._lockobj.locked():
+                self._lockobj.release()
+        elif self._flag_attr is not None:
             self._flagval = v
         else:
             dict.__setitem__(self.session_state, "lock", v)
@@ -1066,7 +1142,7 @@ def trace_program(world, kind, n, stop, opt):
     """Run one handler alone, under sys.settrace, against a recording stub; returns the recorded shared accesses."""
     world.reset(5)
     stub_cls = StubInstance
-    if world.flag_attr is not None:                    # the flag is an attribute of the instance: a recording property
+    if getattr(world, "flag_kind", "state") == "attr":     # the flag is an attribute of the instance: a recording property
         def fget(obj):
             obj.lock_access("R", None)
             return obj._flagval
@@ -1357,7 +1433,7 @@ def probe_sessions(world):
     r2 = world.client.post(f"/{world.id}/end-session").status_code
     world.flag_force(False)
     f["sessionReqExcluded"] = r1 != 200 and r2 != 200
-    f["_detail"] = {"flag": ("attribute " + world.flag_attr) if world.flag_attr else 'session_state["lock"]',
+    f["_detail"] = {"flag": (("threading.Lock attribute " if world.flag_kind == "lockobj" else "attribute ") + world.flag_attr) if world.flag_attr else 'session_state["lock"]',
                     "begin-session while locked": r1, "end-session while locked": r2}
     world.reset(5)
     return f
@@ -1408,7 +1484,7 @@ def session_run(world, kind, stop, k, which, ename, fail, gone, nosession):
                     st["a_steps"] += 1
                     p = pending.get(0)
                     txt = TRACER.src.get(p, "") if isinstance(p, tuple) else ""
-                    if (isinstance(p, tuple) and p[0] == "bptk.try_lock" and txt.startswith("with ")) or \
+                    if (isinstance(p, tuple) and p[0] == "bptk.try_lock" and (txt.startswith("with ") or ".acquire(" in txt)) or \
                             (not world.has_try_lock and isinstance(p, tuple) and ".lock()" in txt):
                         st["a_tried"] = True                 # after this step the guarded section has run
                     if isinstance(p, tuple) and p[0] == "bptk.unlock":
@@ -1761,7 +1837,8 @@ def body_shapes(world):
                 if not flag:
                     out.append(("refusal-releases-lock", f"{what} arrived while another request holds the lock, was answered {status} and cleared the lock"))
                 if c1 != c0:
-                    out.append(("lock-check-then-act", f"{what} arrived while another request holds the lock (answered {status}) and advanced the clock from {c0} to {c1}"))
+                    out.append(("run-step-without-lock" if ep == "run-step" else "lock-check-then-act",
+                                f"{what} arrived while another request holds the lock, was answered {status} and advanced the clock from {c0} to {c1}"))
                 world.flag_force(False)
                 continue
             if flag or ans:
@@ -2247,12 +2324,13 @@ def _run(chk, world):
         if probe_keys[k] not in found:
             chk.add_finding(probe_keys[k], f"probe {k} = false but no schedule explored exhibits the violation",
                             {"probe": k, "solo_labels": facts["_solo_labels"]}, found_input=False)
+    concrete = bool(found or sfound or gfound or bfind or afind)      # a failing input exists: broken ties are folded into the notes
     for key, (scn, rec, text) in gfound.items():
         if key not in found:
             found[key] = None
             chk.add_finding(key, f"on the time grid start 2.0 dt 0.25: {scn.kinds_str()} (stop step {scn.stop}): {text}",
                             dict(replay_of(scn, rec, "action", text), grid={"start": 2.0, "dt": 0.25}))
-    if (gdiff is not None or not gsame) and not (found or sfound):
+    if (gdiff is not None or not gsame) and not concrete:
         chk.add_finding("correspondence", f"time grid start 2.0 dt 0.25: " + (f"model and implementation disagree on {gdiff[0].kinds_str()}: {gdiff[2]}" if gdiff
                         else "the probed mechanism facts differ from those on the integer grid"),
                         dict(replay_of(gdiff[0], gdiff[1], "action", gdiff[2]), grid={"start": 2.0, "dt": 0.25}) if gdiff else {}, found_input=False)
@@ -2269,7 +2347,7 @@ def _run(chk, world):
         bad = [o["name"] for o in progs if o["opt"].get("invalid") and (o["locked_at_end"] or any(l in ("RS", "SIM", "WS") for l in o["labels"]))]
         chk.add_finding("invalid-request-leaves-lock", f"traced handler paths with a body that fails validation hold the lock afterwards or step: {bad}",
                         {"paths": bad}, found_input=False)
-    if getattr(world, "recorder_blind", False) and not (found or sfound):
+    if getattr(world, "recorder_blind", False) and not concrete:
         chk.add_finding("correspondence", "lock() changes what is_locked() answers, but neither a bool attribute of the instance nor "
                         "session_state[\"lock\"] changes: the recorder cannot sit on the flag (class-level or otherwise hidden state)",
                         {"flag": "not found"}, found_input=False)
@@ -2290,13 +2368,13 @@ def _run(chk, world):
     if not sleak_free and "lock-outlives-session" not in sfound:
         chk.add_finding("lock-outlives-session", f"session facts {chk.notes['session_cfg']}: a lock leak is possible in the model (sess_no_leak_violated) "
                         "but no explored schedule exhibits it", {"session_cfg": chk.notes["session_cfg"]}, found_input=False)
-    if sdiff is not None and not sfound:
+    if sdiff is not None and not concrete:
         r, d, rq, rp = sdiff
         chk.add_finding("correspondence", f"session machine and implementation disagree: {d}", dict(session_replay_of(r, d), request=rq, model_reply=rp),
                         found_input=False)
     elif sdiff is not None:
         chk.notes["session_model_diff_under_violation"] = sdiff[1]
-    if cdiff is not None and not (sfound or found):
+    if cdiff is not None and not concrete:
         r, d, rp = cdiff
         chk.add_finding("correspondence", f"session clock machine and implementation disagree: {d}", dict(session_replay_of(r, d), model_reply=rp),
                         found_input=False)
@@ -2304,17 +2382,17 @@ def _run(chk, world):
         chk.notes["session_clock_diff_under_violation"] = cdiff[1]
     if shape is not None:
         bad_dyn = [d for d in shape["dynamic"] if not d["agree"]]
-        if (not shape["agree"] or bad_dyn) and not (found or sfound):
+        if (not shape["agree"] or bad_dyn) and not concrete:
             chk.add_finding("correspondence", "generator shape: close() as interpreted on the token list read off the streamer differs from the real "
                             f"generator: shape fact closeSafe={shape['safe']} probe unlockOnClientGone={facts['unlockOnClientGone']}; traced gone paths: {bad_dyn}",
                             {"shape": chk.notes["streamer_shape"]}, found_input=False)
         elif not shape["agree"] or bad_dyn:
             chk.notes["shape_diff_under_violation"] = {"agree": shape["agree"], "paths": bad_dyn}
-    elif not (found or sfound):
+    elif not concrete:
         chk.add_finding("correspondence", "no generator found in _stream_steps_resource: the streamer shape cannot be read off the source",
                         {}, found_input=False)
     badp = [o for o in obls if not o["ok"] or o.get("exc")]
-    if badp and not found:
+    if badp and not concrete:
         o = badp[0]
         chk.add_finding("correspondence", f"thread program {o['name']}: the accesses recorded from the handler run alone against the stub differ "
                         f"from the model's program: model {' '.join(o['model'])}{'' if o['model_done'] else ' (not finished)'} impl {' '.join(o['impl'])}",
@@ -2322,15 +2400,15 @@ def _run(chk, world):
     elif badp:
         chk.notes["program_diff_under_violation"] = [x["name"] for x in badp]
     dis = [k for k in FACTS if stub_facts.get(k) is not None and stub_facts[k] != facts[k]]
-    if dis and not found:
+    if dis and not concrete:
         chk.add_finding("correspondence", f"mechanism facts read off the traced programs disagree with the probes on the instrumented instance: {dis}",
                         {"facts": {k: facts[k] for k in FACTS}, "from_traced_programs": stub_facts}, found_input=False)
-    if not ok and not (found or sfound):
+    if not ok and not concrete:
         chk.add_finding("obligation", f"proof obligations of C18 no longer check: {why}",
                         {"theorem": "Bptk.C18.Gen.* / Bptk.Props.C18", "detail": why}, found_input=False)
     elif not ok:
         chk.notes["obligation_under_violation"] = why
-    if first_diff is not None and not found:
+    if first_diff is not None and not concrete:
         scn, rec, mode, d, rq, rp = first_diff
         chk.add_finding("correspondence", f"model and implementation disagree on {scn.kinds_str()}: {d}",
                         dict(replay_of(scn, rec, mode, d), request=rq, model_reply=rp), found_input=False)
